@@ -70,8 +70,10 @@ func (u *Unit) Calls() []*Call {
 	if u.callsDone {
 		return u.calls
 	}
-	u.calls = u.computeCalls()
-	u.callsDone = true
+	u.callsDone = true // (set first: a helper that calls back into u sees u's own calls only)
+	own := u.computeCalls()
+	u.calls = own
+	u.calls = append(own, u.inlinedCalls(own)...)
 	return u.calls
 }
 
